@@ -146,15 +146,55 @@ def _casts(table):
     return f
 
 
-_ATTR = re.compile(r"(?m)^[ \t]*#\[(?:inline|allow|derive|structopt|serde|cfg_attr\(kani)[^\n]*\]\s*?$")
+def _vec_macro(text):
+    """R19: `vec![e1, .., en]` -> `vvecN(e1, .., en)` (macro arguments are opaque to the verus! syntax pass;
+    vvecN is a shim whose result is the sequence [e1..en]); `vec![]` -> Vec::new()"""
+    k = 0
+    while True:
+        b = R.blank(text)
+        m = re.search(r"\bvec!\s*\[", b)
+        if not m:
+            return text, k
+        o = m.end() - 1
+        c = R.match_close(b, o)
+        inner = b[o + 1:c]
+        # count top-level commas
+        n, depth, j, last_nonspace = 0, 0, 0, ""
+        parts = 1 if inner.strip() else 0
+        while j < len(inner):
+            ch = inner[j]
+            if ch in "([{":
+                j = R.match_close(inner, j)
+            elif ch == "," :
+                if inner[j + 1:].strip():
+                    parts += 1
+            elif ch == ";":
+                raise ExtractError("R19: vec![x; n] form is outside the rule list")
+            j += 1
+        if parts == 0:
+            text = text[:m.start()] + "Vec::new()" + _blank_lines(text[m.start():c + 1]) + text[c + 1:]
+        else:
+            text = text[:m.start()] + "vvec%d(" % parts + text[o + 1:c] + ")" + text[c + 1:]
+        k += 1
+
+
+_ATTR = re.compile(r"(?m)^([ \t]*)#\[(?:inline|allow|derive|structopt|serde|cfg_attr\(kani)[^\n]*\]\s*?$")
 
 
 def _attrs(text):
-    """R10: attributes dropped (kept as blank lines)"""
+    """R10: attributes dropped (kept as blank lines); of a derive list only Clone/Copy/PartialEq survive
+    (structural, no user code: Verus provides them)"""
     k = 0
     def rep(m):
         nonlocal k
         k += 1
+        line = m.group(0)
+        md = re.search(r"#\[derive\(([^)]*)\)\]", line)
+        if md:
+            names = [x.strip() for x in md.group(1).split(",")]
+            keep = [x for x in names if x in ("Clone", "Copy")]
+            if "Copy" in keep:
+                return m.group(1) + "#[derive(%s)]" % ", ".join(keep)
         return ""
     return _ATTR.sub(rep, text), k
 
@@ -180,6 +220,7 @@ GROUPS = {
         ("R5", _assert_rule, None),
         ("R5", _panic_rule, None),
         ("R5", _bail_rule, None),
+        ("R19", _vec_macro, None),
     ],
     "float": [
         ("R4", _compound, None),
@@ -187,6 +228,7 @@ GROUPS = {
         ("R3", r"\bstd::f64::MIN\b", "F::min_value()"),
         ("R3", r"\bf64::(\w+)\s*\(", r"F::\1("),
         ("R1", r"\bPI\b", "F::pi()"),
+        ("R2", r"\(([^()]*(?:\([^()]*\)[^()]*)*)\)\.(ceil|floor)\(\)\s+as\s+i64", r"F::\2_i64(\1)"),
         ("R1", _float_lits, None),
         # casts are inserted here by expand()
         ("R1", r"\bf64\b", "F"),
